@@ -26,6 +26,8 @@ HistoryOutcome(e) ==
     LET s == e.steps
     IN  IF FirstBadStep(s, LAMBDA x : x.out # x.solo) # 0 THEN "outcome-depends-on-history"
         ELSE IF FirstBadStep(s, LAMBDA x : x.census # e.census0) # 0 THEN "call-modified-registry-or-earlier-object"
+        \* an object the caller created earlier (the generator passed to a seeded draw) was used by a later call
+        ELSE IF FirstBadStep(s, LAMBDA x : ~x.kept) # 0 THEN "call-modified-registry-or-earlier-object"
         ELSE IF e.full_end # e.full0 THEN "history-modified-a-registry"
         ELSE IF FirstBadStep(s, LAMBDA x : ~ReadsOwnWrites(x.acc, Written(s))) # 0 THEN "scratch-read-before-written"
         ELSE "ok"
